@@ -128,6 +128,9 @@ PROBES = {
     "linebreak-in-generic-brackets": ("judged",
         "Q :: blob(*T, *U) { v: *T }\nE :: enum(*T) A (*T, int) end\nstart :: fn do\nend\n",
         "Q :: blob(\n*T,\n *U\n) { v: *T }\nE :: enum(\n*T\n) A (\n*T,\n int\n) end\nstart :: fn do\nend\n"),
+    "prime-call-linebreak-before-continuation": ("judged",
+        "// Reference layout: every bracketed expression is on one line.\nscale :: fn x: int -> int do\n    x * 3\nend\n\nadd :: fn a: int, b: int -> int do\n    a + b\nend\n\nstart :: fn do\n    base := 2\n    offset := 5\n\n    // scale(base + offset)\n    p := (scale' base + offset)\n\n    // scale(add(base, offset))\n    q := (scale' base -> add(offset))\n\n    // [scale(base - offset)]\n    r := [scale' base - offset]\n\n    p <=> 21\n    q <=> 21\n    r <=> [-9]\nend\ng :: fn x: int -> int do\n    x + 1\nend\nQ :: blob { v: int }\nother :: fn do\n    a := 1\n    b := 2\n    if 0 < g' a + b do\n        a = 0\n    end\n    c := g(g' a * b)\n    d := Q { v: g' a - b }\n    e := (a, g' a + b)\nend\n",
+        "// Same program as oneline.sy - the only difference is that the bracketed\n// expressions are broken over several lines (and a comment line is added).\nscale :: fn x: int -> int do\n    x * 3\nend\n\nadd :: fn a: int, b: int -> int do\n    a + b\nend\n\nstart :: fn do\n    base := 2\n    offset := 5\n\n    // scale(base + offset)\n    p := (\n        scale' base\n        + offset\n    )\n\n    // scale(add(base, offset))\n    q := (scale' base\n          // then add the offset\n          -> add(offset))\n\n    // [scale(base - offset)]\n    r := [\n        scale' base\n        - offset\n    ]\n\n    p <=> 21\n    q <=> 21\n    r <=> [-9]\nend\ng :: fn x: int -> int do\n    x + 1\nend\nQ :: blob { v: int }\nother :: fn do\n    a := 1\n    b := 2\n    if 0 < g' a\n        // still the argument\n        + b do\n        a = 0\n    end\n    c := g(g' a\n        * b)\n    d := Q { v: g' a\n        - b }\n    e := (a, g' a\n\n        + b)\nend\n"),
     "arrow-call-as-operand": ("unjudged",
         "f :: fn a: int, b: int -> int do\n    ret a\nend\nstart :: fn do\n    x := f(1, 2) + 1\nend\n",
         "f :: fn a: int, b: int -> int do\n    ret a\nend\nstart :: fn do\n    x := 1 -> f(2) + 1\nend\n"),
@@ -362,18 +365,38 @@ def _disagree(main, flags, a, b, compiler):
 
 
 def _smaller_programs(prog):
-    """programs with one top-level item, or one statement of one function body, removed"""
+    """programs with one top-level item, or one statement of one function body (also inside if/loop/block
+    bodies), removed"""
     out = []
+
+    def bodies(body):
+        """smaller versions of a statement list"""
+        res = []
+        for j, s in enumerate(body):
+            if s[0] != "ret":
+                res.append(body[:j] + body[j + 1:])
+            if s[0] == "if":
+                for bi, (c, b) in enumerate(s[1]):
+                    for nb in bodies(b):
+                        if nb:
+                            res.append(body[:j] + [("if", s[1][:bi] + [(c, nb)] + s[1][bi + 1:], s[2])] + body[j + 1:])
+                    res.append(body[:j] + b + body[j + 1:])
+                if s[2]:
+                    res.append(body[:j] + [("if", s[1], None)] + body[j + 1:])
+            elif s[0] == "loop":
+                for nb in bodies(s[2]):
+                    if nb and nb[-1][0] == "break":
+                        res.append(body[:j] + [("loop", s[1], nb)] + body[j + 1:])
+            elif s[0] == "block":
+                res.append(body[:j] + s[1] + body[j + 1:])
+        return res
     for i in range(len(prog)):
         if prog[i][1] != "start":
             out.append(prog[:i] + prog[i + 1:])
     for i, d in enumerate(prog):
         if d[0] == "fn":
-            body = d[4]
-            for j in range(len(body)):
-                if body[j][0] == "ret":
-                    continue
-                out.append(prog[:i] + [(d[0], d[1], d[2], d[3], body[:j] + body[j + 1:])] + prog[i + 1:])
+            for nb in bodies(d[4]):
+                out.append(prog[:i] + [(d[0], d[1], d[2], d[3], nb)] + prog[i + 1:])
     return out
 
 
@@ -387,7 +410,7 @@ def shrink_generated(ctx, rec, compiler):
 
     def fails(p):
         base = G.render_program(p)
-        for seed in range(4):
+        for seed in range(8):
             var = G.render_program(p, G.Style(seed, **{f: True for f in feats}))
             if _disagree("/main.sy", "nostd", base, var, compiler):
                 return base, var
@@ -418,7 +441,10 @@ def search(ctx, compiler=None):
         failures = got[0]
     if not failures:
         return None
-    failures.sort(key=lambda f: (f.get("program") is None, len(f["variant_text"])))
+    def nfeat(f):
+        v = f["variant"]
+        return len(v.split(":", 1)[1].split("+")) if ":" in v else 1
+    failures.sort(key=lambda f: (f.get("program") is None, nfeat(f), len(f["variant_text"])))
     f = failures[0]
     if f.get("program") is not None:
         f = shrink_generated(ctx, f, comp)
